@@ -29,6 +29,25 @@ CLAIMED["C13"] = dict(
     note="Trusted: TreeET element API twin; SymText strip() model; number syntax is checked on a pool of 12 spellings here (language "
          "inclusion is the SMT engine's job in C10). One (quick) or two (thorough) simultaneous perturbations.",
     ref="DESIGN.md section 6 C13", technique=XH)
+CLAIMED["C04"] = dict(
+    text="Bounded symbolic model checking of the real Router: inductive step from every state of the bounded universe (3 devices incl. a "
+         "catch-all and same-named twins, 3 clients, 4 names, policies) plus 2/3-step histories through the public API, for every "
+         "client-originated kind; the recorded delivery multiset must equal the reference (each accepting non-sender device once, only "
+         "getProperties relayed, never to the sender). Real Driver instances are used as devices in extra conditions.",
+    note="Trusted: names come from a concrete universe through a symbolic index (dict keys would be realised); sender is a registered client.",
+    ref="DESIGN.md section 6 C04", technique=XH)
+CLAIMED["C05"] = dict(
+    text="Bounded symbolic model checking of the real Router fan-out: arbitrary policy table (symbolic per client and device name) + one "
+         "device-originated message of every kind, and 2/3-step histories of enableBLOB/unregister/re-register through the API; delivery to "
+         "each client must be exactly what policy[client][device] alone prescribes. The library clients' blob_handshake is checked end to end.",
+    note="Trusted: concrete name universe via symbolic index; nameless messages fall under the default policy.",
+    ref="DESIGN.md section 6 C05", technique=XH)
+CLAIMED["C09"] = dict(
+    text="Bounded symbolic model checking of the real switch vector code: arbitrary rule-satisfying pre-state bits + one symbolic operation "
+         "(client write of 1-3 switches, value, bool_value, selected_value(s)) for 3 rules x 1..3 (quick) / 1..5 (thorough) switches, plus 2-step "
+         "histories from default_on configurations; post-state and every published setSwitchVector must satisfy the rule.",
+    note="Trusted: initial configurations satisfy the rule; written values are On/Off.",
+    ref="DESIGN.md section 6 C09", technique=XH)
 NA_DEFAULT = "check not built yet in this round (no verdict claimed); see DESIGN.md section 6 for the plan"
 
 checks, na = [], []
